@@ -629,6 +629,7 @@ impl Engine for CoreEngine {
             sl.handles = vec![None; ncoll];
             sl.filters = vec![None; ncoll];
         }
+        crate::fw::SPIN_IS_VIOLATION.store(true, Ordering::SeqCst);
         let sync = sched.sync;
         let prop2 = prop.clone();
         let body = move || {
